@@ -861,3 +861,74 @@ def named_composition_rule(crate, prop, rule="C14.R7"):
         r.fail(prop, "named-separators", "own fields must be joined by a space and flattened members by ` & `", b.file(), b.line())
     r.floor = 3
     return r
+
+
+# ------------------------------------------------------------------ generated output_path()
+
+def output_path_rule(crate, prop, rule="C11.R4"):
+    r = Result(rule, "the generated output_path() (templates of DerivedTS::into_impl, helpers included): the alternative reached without `export_to` is `<name>.ts`; the one reached with `export_to` yields the given directory followed by `<name>.ts` exactly when the given text ends in `/`, and the given text verbatim otherwise; the name slot is DerivedTS.ts_name in both")
+    b = crate.ibody("DerivedTS::into_impl")
+    if b is None:
+        r.fail(prop, "anchor-missing into_impl", "not found")
+        return r
+    groups = Q.function_templates(crate, "DerivedTS::into_impl")
+    host = [t for ib, tpls, keep in groups for t in tpls if re.search(r"fn output_path \( \)", t.text())]
+    if not host:
+        r.fail(prop, "anchor-missing output_path template", "no template defines fn output_path()", b.file(), b.line())
+        return r
+    t0 = host[0]
+    if not any("TokenStream" in (ty or "") for _, _, ty in t0.interps):
+        r.fail(prop, "output-path-wrapper", "fn output_path() does not return the computed path expression", t0.file, t0.line)
+    # the path expressions: told apart by the test on DerivedTS.export_to that dominates them
+    tpls = Q.templates(b)
+    some = none = None
+    for tp in tpls:
+        ex = " ".join(x for x in S.flat(Q.expanded(b, tp, tpls)) if isinstance(x, str))
+        if not re.search(r'format ! \( "[^"]*\.ts"|ends_with \( \'/\' \)', ex):
+            continue
+        cons = [v for s2, v in _edge_constraints(b, tp.block) if re.search(r"DerivedTS\.export_to$", s2)]
+        if 1 in cons and (some is None or len(ex) > some[1]):
+            some = (tp, len(ex))            # the outermost of the templates built for `export_to = ..`
+        elif 0 in cons and (none is None or len(ex) > none[1]):
+            none = (tp, len(ex))
+    some, none = (some[0] if some else None), (none[0] if none else None)
+    if False:
+        pass
+    if not some or not none:
+        r.fail(prop, "anchor-missing output_path template", "the alternatives of the path expression for export_to = Some / None could not be told apart", t0.file, t0.line)
+        return r
+    some_tokens, none_tokens = Q.expanded(b, some, tpls), Q.expanded(b, none, tpls)
+
+    def _interps_deep(tp, depth=3):
+        out = list(zip(tp.interps, tp.projs))
+        if depth:
+            for (_, l, ty), pj in zip(tp.interps, tp.projs):
+                sub = Q.stream_template(b, l, tpls) if l is not None and "TokenStream" in (ty or "") else None
+                if sub is not None and sub is not tp:
+                    out += _interps_deep(sub, depth - 1)
+        return out
+
+    def name_slot_ok(tp):
+        return any(re.search(r"DerivedTS\.ts_name$", panics.operand_origin(b, {"k": "copy", "pl": {"l": l, "p": list(pj)}})) for (_, l, _), pj in _interps_deep(tp) if l is not None)
+
+    fcn = S.format_calls(none_tokens)
+    ok_none = len(fcn) == 1 and S.unquote(fcn[0][0]) == "{}.ts" and len(fcn[0][1]) == 1 and name_slot_ok(none)
+    r.inst(case="no export_to", template=[S.unquote(l) for l, _ in fcn], ok=ok_none, where="%s:%s" % (none.file, none.line))
+    if not ok_none:
+        r.fail(prop, "output-path-default", "without export_to the path must be `<TypeScript name>.ts`", none.file, none.line)
+    txt = " ".join(x for x in S.flat(some_tokens) if isinstance(x, str))
+    fcs = S.format_calls(some_tokens)
+    lits = [S.unquote(l) for l, _ in fcs]
+    m = re.search(r"if (\w+) \. ends_with \( '/' \)", txt)
+    var = m.group(1) if m else None
+    dir_form = var is not None and any(l == "{%s}{}.ts" % var and len(args) == 1 for (l0, args), l in zip(fcs, lits))
+    file_form = var is not None and "{%s}" % var in lits
+    then_first = txt.find("{%s}{}.ts" % var) < txt.find('"{%s}"' % var) if dir_form and file_form else False
+    given = var is not None and bool(re.search(r"let %s = format ! \( \"\{\}\" , # [\w:]+ \)" % var, txt)) and \
+        any(re.search(r"DerivedTS\.export_to$", panics.operand_origin(b, {"k": "copy", "pl": {"l": l, "p": list(pj)}})) for (_, l, _), pj in _interps_deep(some) if l is not None)
+    ok = bool(m) and dir_form and file_form and then_first and name_slot_ok(some) and given
+    r.inst(case="export_to", condition_on_trailing_slash=bool(m), directory_form=dir_form, file_form=file_form, given_text_is_export_to=given, ok=ok, where="%s:%s" % (some.file, some.line))
+    if not ok:
+        r.fail(prop, "output-path-export_to", "export_to must yield `<dir>/<name>.ts` exactly when it ends in `/` and the path verbatim otherwise (templates %s)" % lits, some.file, some.line)
+    r.floor = 2
+    return r
